@@ -346,6 +346,7 @@ def run_lines(exe, lines, full=False, timeout=1200, extra_env=None, mem_gb=24):
     start = 0
     n = len(lines)
     restarts = 0
+    timed_out_at = None
     while start < n:
         data = "\n".join(lines[start:]) + "\n"
 
@@ -362,13 +363,22 @@ def run_lines(exe, lines, full=False, timeout=1200, extra_env=None, mem_gb=24):
         except subprocess.TimeoutExpired:
             p.kill()
             so, se = p.communicate()
-            got = so.decode(errors="replace").split("\n")
-            if got and got[-1] == "":
-                got.pop()
+            text = so.decode(errors="replace")
+            got = text.split("\n")
+            # the last element is an incomplete line (or empty): never compare a cut-off line
+            got.pop()
+            got = [g for g in got if not re.match(r"^\d{4}/\d\d/\d\d ", g)]
             outs.extend(got)
-            outs.append("timeout")
-            start = len(outs)
             restarts += 1
+            if got:
+                # the batch as a whole ran out of time: go on with the case it stopped at
+                timed_out_at = None
+            else:
+                # no progress at all: the first case of this batch is the slow one
+                if timed_out_at == len(outs):
+                    outs.append("timeout")
+                timed_out_at = len(outs)
+            start = len(outs)
             if restarts > 200:
                 break
             continue
